@@ -1,10 +1,10 @@
 """Replays for C13: query_terminal / read_tty on a real pty; KeyboardInterrupt / OSError injected at the k-th external call (termios,
 os.read / os.write, select, monotonic), before the call or right after it took effect, for every k outside the function's own final
 restore; the attribute set read back from the pty afterwards must be the one found."""
-import os, pty, types
+import os, pty, sys, types
 
 
-def _run(which, echo_on):
+def _run(which, echo_on, raw=False):
     import select as _select, termios as _termios, time as _time
     import term_image
     import term_image.utils as U
@@ -16,15 +16,30 @@ def _run(which, echo_on):
         term_image.enable_queries()
         attr = _termios.tcgetattr(slave)
         attr[3] = (attr[3] | _termios.ECHO) if echo_on else (attr[3] & ~_termios.ECHO)
+        if raw:
+            # a caller that already reads byte-wise without blocking: exactly the mode read_tty() itself ends up in
+            attr[3] &= ~_termios.ICANON
+            attr[6] = list(attr[6])
+            attr[6][_termios.VMIN], attr[6][_termios.VTIME] = 0, 0
         _termios.tcsetattr(slave, _termios.TCSANOW, attr)
         before = _termios.tcgetattr(slave)
         state = {"n": 0, "fail_at": None, "exc": None, "after": False, "log": []}
+        import ast as _ast, inspect as _inspect, textwrap as _tw
+        rt = _inspect.unwrap(U.read_tty)
+        rt_code = rt.__code__
+        src_lines, first = _inspect.getsourcelines(rt)
+        tree = _ast.parse(_tw.dedent("".join(src_lines)))
+        finally_lines = {ln + first - 1 for t in _ast.walk(tree) if isinstance(t, _ast.Try) for st_ in t.finalbody
+                         for ln in range(st_.lineno, (st_.end_lineno or st_.lineno) + 1)}
 
         def wrap(name, fn):
             def f(*a, **k):
                 state["n"] += 1
-                # the function's own restore is the tcsetattr that is handed the attributes found on entry
-                state["log"].append(name + "(restore)" if name == "termios.tcsetattr" and len(a) >= 3 and list(a[2]) == list(before) else name)
+                # the function's own restore is the tcsetattr issued from a `finally` block of read_tty (by source position: a mode
+                # switch that happens to be handed the attributes found on entry is not the restore)
+                fr = sys._getframe(1)
+                in_finally = fr.f_code is rt_code and fr.f_lineno in finally_lines
+                state["log"].append(name + "(restore)" if name == "termios.tcsetattr" and in_finally else name)
                 hit = state["fail_at"] == state["n"]
                 if hit and not state["after"]:
                     raise state["exc"]()
@@ -53,6 +68,8 @@ def _run(which, echo_on):
                 return U.query_terminal(b"\x1b[c", lambda s: not s.endswith(b"c"), 0.02)
             if which == "read_tty[timed]":
                 return U.read_tty(lambda s: len(s) < 3, 0.02)
+            if which == "read_tty[timed,min=1]":
+                return U.read_tty(lambda s: len(s) < 3, 0.02, 1, echo=echo_on)
             return U.read_tty()
         os.write(master, b"\x1b[?62;c")
         call()
@@ -64,7 +81,7 @@ def _run(which, echo_on):
         if which == "query_terminal":
             last_restore = state.get("nested_end", n_calls) + 1
         else:
-            last_restore = max(i for i, nm in enumerate(log, 1) if nm == "termios.tcsetattr(restore)")
+            last_restore = max((i for i, nm in enumerate(log, 1) if nm == "termios.tcsetattr(restore)"), default=n_calls + 1)
         for k in range(1, n_calls + 1):
             if k >= last_restore:
                 continue        # inside the function's own `finally`
@@ -89,7 +106,7 @@ def _run(which, echo_on):
                         continue        # this run made fewer external calls: no fault was injected
                     now = _termios.tcgetattr(slave)
                     if now != before:
-                        problems.append({"call": which, "echo_on_entry": echo_on, "fault": exc.__name__, "at external call": f"{k} ({log[k - 1]})",
+                        problems.append({"call": which, "echo_on_entry": echo_on, "raw_on_entry(VMIN=0,VTIME=0)": raw, "fault": exc.__name__, "at external call": f"{k} ({log[k - 1]})",
                                          "surfaced": "after the call took effect" if after else "before the call", "lflag before/after": (before[3], now[3]), "cc changed": before[6] != now[6]})
                         return problems
     finally:
@@ -158,7 +175,9 @@ def _modes():
 
 def read_tty(m, meta):
     problems = _modes()
-    for which in ("read_tty[timed]", "read_tty[drain]"):
+    for which in ("read_tty[timed]", "read_tty[drain]", "read_tty[timed,min=1]"):
         for echo in (True, False):
-            problems += _run(which, echo)
+            for raw in (False, True):
+                if not problems:
+                    problems += _run(which, echo, raw)
     return {"reproduced": bool(problems), "input": "faults at every external call of read_tty (timed / drain) on a pty", "observed": problems[:2]}
